@@ -25,6 +25,10 @@ MANIFEST = dict(
          "behaviour is observed by the sanitizers, not proved.",
     technique="Lean 4 proof over executable byte-level models + model/impl correspondence + spec oracle on impl output",
     design="DESIGN.md §6 C01, §11.2")
+MANIFEST["note"] += (" Constants and limits of the C++ source that the model restates (translator/gen_limits.py -> Gen/Limits.lean: "
+                     "compiled probe + preprocessed function bodies at named anchors) are tied to the model's numerals by the "
+                     "theorems of lean/TinsModel/Props/Limits/Wire.lean (audit: Audit/LimitsWire.lean); tools/LIMITS-INVENTORY.md lists "
+                     "what is tied and what is not.")
 
 
 def gen_stream_ops(rng, ncases):
